@@ -125,7 +125,7 @@ PROPS["C15"] = {
             "the exact complement; every case is counted non-trivial (generated at the boundary); distinct = distinct (op, arg, input, flags)",
     "essential": {"all": ["match:pm", "nomatch:pm", "match:pmFromFile", "match:pmFromDataset", "match:ipMatch", "nomatch:ipMatch", "match:validateByteRange",
                           "nomatch:validateByteRange", "match:validateUrlEncoding", "nomatch:validateUrlEncoding", "match:validateUtf8Encoding",
-                          "match:rx", "nomatch:rx", "capture-checked", "capture-10-groups", "macro-argument", "match:within", "match:streq", "nomatch:streq"]},
+                          "match:rx", "nomatch:rx", "rx-with-prefilter", "capture-checked", "capture-10-groups", "macro-argument", "match:within", "match:streq", "nomatch:streq"]},
     "assumptions": COMMON_ASSUME + [
         "Go's regexp with (?sm) is the trusted base for @rx; net.ParseCIDR for IPv6 networks; @pm captures are checked with a validity predicate "
         "(overlapping hits are allowed: the matcher's iteration order is not documented)",
@@ -260,7 +260,8 @@ PROPS["C17"] = {
             "configuration; non-trivial = the directive changes the outcome for that request",
     "essential": {"all": ["outcome-changed:removeById", "outcome-changed:removeByTag", "outcome-changed:removeByMsg", "outcome-changed:updTargetById",
                           "outcome-changed:updTargetByTag", "outcome-changed:updActionById", "outcome-changed:ctl", "several-ids", "id-range",
-                          "regex-key-target", "positive-target", "chain-in-base", "second-transaction-checked", "ctl:ruleRemoveTargetByTag", "ctl:ruleRemoveByMsg"]},
+                          "regex-key-target", "positive-target", "chain-in-base", "second-transaction-checked", "ctl:ruleRemoveTargetByTag", "ctl:ruleRemoveByMsg",
+                          "removal-with-skip-window"]},
     "assumptions": COMMON_ASSUME + [
         "updates of id/phase are not generated (documented as unsupported); ctl keys are lower-case (C01 owns key case)",
     ],
@@ -277,7 +278,7 @@ PROPS["C13"] = {
             "equal those of a second binary built with -tags coraza.no_memoize for the same seeds; non-trivial = two WAFs alive together and "
             "an equal string in two roles or different content under one name, with at least one probe",
     "essential": {"all": ["two-wafs-alive", "same-dataset-name-different-content", "same-file-name-different-root", "role:pm", "role:key-rx", "role:ctl-rx",
-                          "role:restpath", "role:nid", "role:rx", "role:binary-rx", "role:status", "role:dataset", "role:file"]},
+                          "role:restpath", "role:nid", "role:rx", "role:binary-rx", "role:status", "role:dataset", "role:file", "role:key-rx-case-insensitive"]},
     "assumptions": COMMON_ASSUME + [
         "rapid generates the same case sequence in both binaries for a given seed (verified per line by the case hash)",
     ],
